@@ -23,6 +23,7 @@ EXPLANATION = (
     "(name in schedule; channel not in available_channels; occupied-or-reusable filter; XY/non-XY split; empty local channel rejects). "
     "NOT decided: the bounded-length transition system as a whole (which sequences of calls are accepted is a runtime question); only the guards that implement it are checked. MODE (added): a rejection that depends only on the XY/Ising mode is evaluated before the `if self.is_parametrized(): return` short-cut."
     ' Round 4 (added): the scan of stored enable/disable_eom_mode calls in is_in_eom_mode answers only at a record whose channel argument equals the inspected channel (loop or generator form).'
+    ' Round 5 (added): the once-only and availability rules of config_slm_mask hold on the parametrized path; a stored SLM mask declares a DMM only outside XY mode.'
 )
 ASSUMPTIONS = [
     "a guard is recognised as an `if <call>: raise` (or mirrored else) statement or a call establishing it on all its paths",
